@@ -316,6 +316,15 @@ class SyncManager(Runnable):
             not self.providers[1].paths_match(ent[1].path, ent[1].sync_path, for_display=True) and \
             not ent.is_temp_rename
 
+    def moved_out_of_root(self, sync: SyncEntry, side) -> bool:
+        """
+        Boolean true if this side of a synced entry is now somewhere outside of the sync root
+        """
+        ss = sync[side]
+        if not (ss.oid and ss.path and ss.sync_path and ss.exists == EXISTS):
+            return False
+        return not self.translate(OTHER_SIDE[side], ss.path) and not self.providers[side].is_subpath_of_root(ss.path)
+
     def check_revivify(self, sync: SyncEntry):
         """
         Revives a sync entrty if it was discarded, but is now relevant, because the new translated_path is relevant
@@ -374,6 +383,16 @@ class SyncManager(Runnable):
         """
         Called on each changed entry.
         """
+        for side in (LOCAL, REMOTE):
+            if sync[side].oid and sync[side].needs_sync() and self.moved_out_of_root(sync, OTHER_SIDE[side]):
+                # Syncing this side's change would upload to, rename or delete the other side's object by oid, wherever it
+                # is now, and it is now outside of the sync root. Moving out of the root is a deletion as far as sync is
+                # concerned, and the change wins over it: separate the sides, so that the change syncs as a creation
+                # (or as the deletion of nothing), and the moved object is irrelevant and left alone.
+                log.info("side %s changed, other side moved out of the root, split %s", side, sync)
+                self.state.split(sync)
+                return True
+
         if sync.hash_conflict():
             log.debug("handle hash conflict")
             self.handle_hash_conflict(sync)
